@@ -8,7 +8,8 @@ import Abasic.Proofs.Stmt3Static
 
   The reference semantics is Abasic/Ref/Stmt3.lean (`RStmt3`, `RStmt3.exec`: LET,
   PRINT, GOTO, END, IF with arbitrary branches and `THEN n` / `ELSE n`, FOR /
-  NEXT, GOSUB / RETURN, READ / DATA / RESTORE, DIM, `LET a(i) = e`, DEF FN; every
+  NEXT, GOSUB / RETURN, READ (scalar targets and array cells `a(e…)` in any
+  mixture, `RTarget`) / DATA / RESTORE, DIM, `LET a(i) = e`, DEF FN; every
   expression is an `Expr2` — array cells, RND, calls of user functions — and is
   evaluated with `fold2`) and Abasic/Ref/Prog3.lean (`RStep3`, `RSteps3`).
   Proved here, about the model of the real code:
